@@ -1,6 +1,8 @@
 package harness
 
 import (
+	"bytes"
+	"compress/gzip"
 	"encoding/json"
 	"errors"
 	"fmt"
@@ -157,6 +159,9 @@ func (c12) Gen(rng *rand.Rand, tier string, k int) *Case {
 		case 3:
 			a.TgtN, a.TgtEmpty = 0, true
 		}
+		if c.Impl == "file" && rng.Intn(10) == 0 {
+			a.TgtLink = true
+		}
 		if many {
 			a.SrcN, a.TgtN = rng.Intn(3), rng.Intn(2)
 		} else if rng.Intn(40) == 0 {
@@ -296,11 +301,29 @@ func (t *tiingoServer) RoundTrip(req *http.Request) (*http.Response, error) {
 	t.mu.Lock()
 	t.bytes = max(t.bytes, len(body))
 	t.mu.Unlock()
+	hdr := http.Header{}
+	body = negotiateEncoding(req, hdr, body)
 	return &http.Response{
 		StatusCode: status, Status: fmt.Sprintf("%d %s", status, http.StatusText(status)),
-		Proto: "HTTP/1.1", ProtoMajor: 1, ProtoMinor: 1, Header: http.Header{}, Request: req, ContentLength: -1,
+		Proto: "HTTP/1.1", ProtoMajor: 1, ProtoMinor: 1, Header: hdr, Request: req, ContentLength: -1,
 		Body: &FragReader{Data: body, Frag: t.frag, ErrAt: -1, Ctx: req.Context()},
 	}, nil
+}
+
+// negotiateEncoding is the content negotiation of the simulated servers. net/http's transport asks
+// for gzip on its own and then decompresses transparently - that never reaches a RoundTripper that
+// stands in for it. A caller that sets Accept-Encoding itself is handed the compressed bytes, as
+// by the real transport, and has to decode them.
+func negotiateEncoding(req *http.Request, hdr http.Header, body []byte) []byte {
+	if !strings.Contains(req.Header.Get("Accept-Encoding"), "gzip") {
+		return body
+	}
+	var buf bytes.Buffer
+	zw := gzip.NewWriter(&buf)
+	zw.Write(body)
+	zw.Close()
+	hdr.Set("Content-Encoding", "gzip")
+	return buf.Bytes()
 }
 
 func (c12) Shrinks(c *Case) []*Case {
@@ -456,7 +479,7 @@ func (c12) Run(c *Case, st *Stats) []Violation {
 	if base != base2000 {
 		st.Faults["dates-in-a-daylight-saving-zone"]++
 	}
-	dir, dbName, srcDir := "", "", ""
+	dir, dbName, srcDir, linkDir := "", "", "", ""
 	var server *tiingoServer
 	oldTransport := http.DefaultTransport
 	defer func() {
@@ -575,6 +598,20 @@ func (c12) Run(c *Case, st *Stats) []Violation {
 					}
 					if c.Impl != "sql" || a.TgtN > 0 {
 						inTarget[a.Name] = true
+					}
+				}
+				if a.TgtLink && c.Impl == "file" && !a.TgtAbsent {
+					// the asset's file is kept on another volume and linked into the repository directory
+					if linkDir == "" {
+						linkDir = runDir()
+					}
+					p, real := filepath.Join(dir, a.Name+".csv"), filepath.Join(linkDir, a.Name+".data")
+					if err := os.Rename(p, real); err == nil {
+						if err := os.Symlink(real, p); err != nil {
+							add("setup-error", "-", err.Error())
+							return
+						}
+						st.Faults["target-asset-file-is-a-symbolic-link"]++
 					}
 				}
 			}
@@ -739,6 +776,9 @@ func (c12) Run(c *Case, st *Stats) []Violation {
 	}
 	if srcDir != "" {
 		os.RemoveAll(srcDir)
+	}
+	if linkDir != "" {
+		os.RemoveAll(linkDir)
 	}
 	if dbName != "" {
 		simDBsMu.Lock()
